@@ -2,6 +2,7 @@ package props
 
 import (
 	"fmt"
+	"math"
 	"go/ast"
 	"go/types"
 	"strings"
@@ -418,92 +419,154 @@ func c05Frame(p *core.Program, r *core.Report, rule string, optsOnly bool) {
 	}
 	r.Check(optObj != nil && fresh, rule, "net/oneway.makeData per-send options", pos, "options are applied to a fresh zero-valued struct on every send",
 		"the per-send options are not applied to a fresh struct created in makeData: a license override of one send can leak into later sends")
-	// 2. body: Short(p.GetPackType()) then p.Write(dout) before any WriteHeader
-	var events []string
-	var headers []*ast.CallExpr
-	ast.Inspect(md.Decl.Body, func(n ast.Node) bool {
-		call, ok := n.(*ast.CallExpr)
-		if !ok {
-			return true
+	// 2./3. partition evaluation of makeData over "per-send license empty / non-empty": on every path
+	// the stream receives Short(pack type), the pack body, then exactly one header whose license hash
+	// is taken from the per-send option when it is non-empty and from the client otherwise. Locals,
+	// if/else vs. pre-selected variable, named constants and branch order are normalised away.
+	isOptLicense := func(ce *classEval, st *ceState, e ast.Expr) bool {
+		sel, ok := e.(*ast.SelectorExpr)
+		if !ok || sel.Sel.Name != "License" || optObj == nil {
+			return false
 		}
-		if sel, ok := call.Fun.(*ast.SelectorExpr); ok {
-			switch {
-			case sel.Sel.Name == "WriteHeader":
-				headers = append(headers, call)
-				events = append(events, "WriteHeader")
-			case strings.HasPrefix(sel.Sel.Name, "Write") && len(call.Args) == 1:
-				if tv, ok := info.Types[sel.X]; ok && strings.HasSuffix(tv.Type.String(), "io.DataOutputX") {
-					events = append(events, strings.TrimPrefix(sel.Sel.Name, "Write")+"("+types.ExprString(call.Args[0])+")")
-				} else if tv, ok := info.Types[call.Args[0]]; ok && strings.HasSuffix(tv.Type.String(), "io.DataOutputX") {
-					events = append(events, types.ExprString(sel.X)+".Write")
+		id, ok := ast.Unparen(sel.X).(*ast.Ident)
+		return ok && ce.info.ObjectOf(id) == optObj
+	}
+	var recvObj types.Object
+	if md.Decl.Recv != nil && len(md.Decl.Recv.List) == 1 && len(md.Decl.Recv.List[0].Names) == 1 {
+		recvObj = info.Defs[md.Decl.Recv.List[0].Names[0]]
+	}
+	cpaths, cerr := evalClassesOpt(p, md, ivl{0, math.MaxInt64},
+		func(*classEval, *ceState, ast.Expr) bool { return false }, nil, func(string) bool { return true },
+		func(ce *classEval) {
+			ce.noRecv = true
+			ce.emptyMeansZero = isOptLicense
+			ce.isStream = func(o types.Object) bool { return strings.HasSuffix(o.Type().String(), "io.DataOutputX") }
+		})
+	if cerr != "" {
+		r.Undec(rule, "net/oneway.makeData", pos, "cannot enumerate makeData: "+cerr)
+		return
+	}
+	resolve := func(env map[types.Object]ast.Expr, e ast.Expr) ast.Expr {
+		for i := 0; i < 10; i++ {
+			e = ast.Unparen(e)
+			if id, ok := e.(*ast.Ident); ok {
+				if sub, ok := env[info.ObjectOf(id)]; ok {
+					e = sub
+					continue
 				}
 			}
+			if call, ok := e.(*ast.CallExpr); ok && len(call.Args) == 1 {
+				if tv, ok := info.Types[call.Fun]; ok && tv.IsType() {
+					e = call.Args[0]
+					continue
+				}
+			}
+			return e
 		}
-		return true
-	})
-	wantPrefix := []string{"Short(p.GetPackType())", "p.Write"}
-	okBody := len(events) >= 3 && events[0] == wantPrefix[0] && events[1] == wantPrefix[1]
-	for _, e := range events[min(2, len(events)):] {
-		if e != "WriteHeader" {
-			okBody = false
+		return e
+	}
+	// methodOn: e is X.name(...) -> canonical text of X
+	methodOn := func(env map[types.Object]ast.Expr, e ast.Expr, name string) (string, bool) {
+		call, ok := resolve(env, e).(*ast.CallExpr)
+		if !ok {
+			return "", false
+		}
+		sel, ok := call.Fun.(*ast.SelectorExpr)
+		if !ok || sel.Sel.Name != name {
+			return "", false
+		}
+		return types.ExprString(resolve(env, sel.X)), true
+	}
+	bodyBad, hdrBad := "", map[bool]string{}
+	seen := map[bool]bool{}
+	for i := range cpaths {
+		pth := &cpaths[i]
+		override := !pth.Set.contains(0)
+		if pth.Set.contains(0) && pth.Set.contains(1) {
+			hdrBad[true] = "the header does not depend on whether a per-send license was given"
+			hdrBad[false] = hdrBad[true]
+		}
+		seen[override] = true
+		var hdrs []ceEmit
+		var pre []ceEmit
+		for _, em := range pth.Emits {
+			if em.Method == "WriteHeader" {
+				hdrs = append(hdrs, em)
+			} else if len(hdrs) == 0 {
+				pre = append(pre, em)
+			} else if bodyBad == "" {
+				bodyBad = "stream operation " + em.Method + " after the header"
+			}
+		}
+		packX := ""
+		if len(pre) != 2 || pre[0].Method != "WriteShort" || len(pre[0].Call.Args) != 1 || !strings.HasPrefix(pre[1].Method, "pass:") || !strings.HasSuffix(pre[1].Method, ".Write") {
+			if bodyBad == "" {
+				bodyBad = fmt.Sprintf("stream operations before the header are [%s]; want Short(pack type) then the pack's Write", emitNames(pre))
+			}
+		} else {
+			x0, ok0 := methodOn(pre[0].Env, pre[0].Call.Args[0], "GetPackType")
+			var x1 string
+			if sel, ok := pre[1].Call.Fun.(*ast.SelectorExpr); ok {
+				x1 = types.ExprString(resolve(pre[1].Env, sel.X))
+			}
+			if !ok0 || x0 != x1 {
+				if bodyBad == "" {
+					bodyBad = "the type code written is not GetPackType() of the pack whose body follows"
+				}
+			}
+			packX = x0
+		}
+		if len(hdrs) != 1 || len(hdrs[0].Call.Args) != 4 {
+			hdrBad[override] = fmt.Sprintf("%d WriteHeader calls on this path; want exactly one with four arguments", len(hdrs))
+			continue
+		}
+		h := hdrs[0]
+		a0, ok0 := constIntOf(info, resolve(h.Env, h.Call.Args[0]))
+		a1, ok1 := constIntOf(info, resolve(h.Env, h.Call.Args[1]))
+		px, okp := methodOn(h.Env, h.Call.Args[2], "GetPCODE")
+		what := ""
+		if !(ok0 && ok1 && a0 == 10 && a1 == 0) {
+			what = "source/version bytes are not (10, 0)"
+		} else if !okp || (packX != "" && px != packX) {
+			what = "the project code is not GetPCODE() of the pack being sent"
+		} else if hc, ok := resolve(h.Env, h.Call.Args[3]).(*ast.CallExpr); !ok || !isCallTo(info, hc, core.ModPath+"/util/hash", "Hash64Str") || len(hc.Args) != 1 {
+			what = "the license field is not Hash64Str(<license>)"
+		} else {
+			lic := resolve(h.Env, hc.Args[0])
+			sel, isSel := lic.(*ast.SelectorExpr)
+			var base types.Object
+			if isSel {
+				if id, isId := ast.Unparen(sel.X).(*ast.Ident); isId {
+					base = info.ObjectOf(id)
+				}
+			}
+			switch {
+			case !isSel || sel.Sel.Name != "License" || base == nil:
+				what = "the hashed license is " + types.ExprString(lic) + ", not a License field read at send time"
+			case override && base != optObj:
+				what = "a per-send license was given but the header hashes " + types.ExprString(lic)
+			case !override && base != recvObj:
+				what = "no per-send license was given but the header hashes " + types.ExprString(lic) + " instead of the client's License"
+			}
+		}
+		if what != "" && hdrBad[override] == "" {
+			hdrBad[override] = what
 		}
 	}
 	if !optsOnly {
-		r.Check(okBody, rule, "net/oneway.makeData body", pos, "Short(pack type), pack body, then the header", fmt.Sprintf("stream events are %v; want Short(p.GetPackType()), p.Write, WriteHeader", events))
+		r.Check(bodyBad == "", rule, "net/oneway.makeData body", pos, "Short(pack type), pack body, then the header", bodyBad)
 	}
-	// 3. header arguments
-	if len(headers) != 2 {
-		r.Viol(rule, "net/oneway.makeData header calls", pos, fmt.Sprintf("%d WriteHeader calls; want one for the per-send license and one for the client default", len(headers)))
-		return
-	}
-	lic := map[string]bool{}
-	for _, h := range headers {
-		if len(h.Args) != 4 {
-			r.Viol(rule, "net/oneway.makeData header args", p.Pos(h.Pos()), "WriteHeader does not take four arguments")
-			continue
-		}
-		a0, ok0 := constIntOf(info, h.Args[0])
-		a1, ok1 := constIntOf(info, h.Args[1])
-		okc := ok0 && ok1 && a0 == 10 && a1 == 0
-		okp := types.ExprString(h.Args[2]) == "p.GetPCODE()"
-		src := ""
-		if call, ok := h.Args[3].(*ast.CallExpr); ok && isCallTo(info, call, core.ModPath+"/util/hash", "Hash64Str") && len(call.Args) == 1 {
-			src = types.ExprString(call.Args[0])
-		}
-		lic[src] = true
-		c := "net/oneway.makeData header(" + src + ")"
-		r.Check(okc && okp && src != "", rule, c, p.Pos(h.Pos()), "WriteHeader(10, 0, p.GetPCODE(), Hash64Str("+src+"))",
-			fmt.Sprintf("header arguments are (%s, %s, %s, %s); want (10, 0, p.GetPCODE(), Hash64Str(<license in effect>)) computed at send time", types.ExprString(h.Args[0]), types.ExprString(h.Args[1]), types.ExprString(h.Args[2]), types.ExprString(h.Args[3])))
-	}
-	optName := ""
-	if optObj != nil {
-		optName = optObj.Name()
-	}
-	// guard: the per-send license is used exactly when non-empty
-	guardOK := false
-	ast.Inspect(md.Decl.Body, func(n ast.Node) bool {
-		if ifs, ok := n.(*ast.IfStmt); ok {
-			if types.ExprString(ifs.Cond) == optName+`.License != ""` && ifs.Else != nil {
-				thenHas, elseHas := false, false
-				ast.Inspect(ifs.Body, func(m ast.Node) bool {
-					if c, ok := m.(*ast.CallExpr); ok && strings.Contains(types.ExprString(c), "Hash64Str("+optName+".License)") {
-						thenHas = true
-					}
-					return true
-				})
-				ast.Inspect(ifs.Else, func(m ast.Node) bool {
-					if c, ok := m.(*ast.CallExpr); ok && strings.Contains(types.ExprString(c), "Hash64Str(this.License)") {
-						elseHas = true
-					}
-					return true
-				})
-				guardOK = thenHas && elseHas
-			}
-		}
-		return true
-	})
-	r.Check(guardOK && lic[optName+".License"] && lic["this.License"], rule, "net/oneway.makeData license selection", pos,
+	r.Check(seen[true] && hdrBad[true] == "", rule, "net/oneway.makeData header(per-send license)", pos, "WriteHeader(10, 0, pack's pcode, Hash64Str(per-send license)) when the option is non-empty", orStr(hdrBad[true], "no path for a non-empty per-send license"))
+	r.Check(seen[false] && hdrBad[false] == "", rule, "net/oneway.makeData header(client license)", pos, "WriteHeader(10, 0, pack's pcode, Hash64Str(client License)) otherwise", orStr(hdrBad[false], "no path for an empty per-send license"))
+	r.Check(seen[true] && seen[false] && hdrBad[true] == "" && hdrBad[false] == "", rule, "net/oneway.makeData license selection", pos,
 		"per-send license when non-empty, else the client's", "the license hashed into the header is not selected as: per-send override if non-empty, otherwise the client's current License")
+}
+
+func orStr(a, b string) string {
+	if a != "" {
+		return a
+	}
+	return b
 }
 
 func min(a, b int) int {
